@@ -136,9 +136,15 @@ func effectFreeProducer(w *World, v ssa.Value) bool {
 
 // c04Immediate: what converter methods hand back to the driver is a reference or literal.
 func c04Immediate(w *World, b *Backend, r *Result) {
-	rule := "R-C04-immediate"
+	c04ImmediateFor(w, b, r, "R-C04-immediate", nil)
+}
+
+func c04ImmediateFor(w *World, b *Backend, r *Result, rule string, only func(string) bool) {
 	var names []string
 	for n := range b.X.Methods {
+		if only != nil && !only(n) {
+			continue
+		}
 		names = append(names, n)
 	}
 	sort.Strings(names)
